@@ -10,9 +10,15 @@
 //   - in them, every RENDERING of a number: strconv.AppendUint(buf, V, base) or strconv.FormatUint(V, base), whose V is
 //     counter-related, i.e. mentions an integer or sync/atomic field of Mux, a sync/atomic function, or a local assigned
 //     from such an expression;
-//   - V must be an INCREMENT   atomic.AddUint64(&x.f, d)   or   x.f.Add(d)   with f a field of Mux, possibly wrapped in
-//     uint64(...), or ONE local variable that is defined exactly once, by `v := INCREMENT` / `var v [uint64] = INCREMENT`,
-//     and never assigned, incremented or address-taken again;
+//   - V must RESOLVE to an INCREMENT   atomic.AddUint64(&x.f, d) / atomic.AddInt64(&x.f, d)   or   x.f.Add(d)   with f a field
+//     of Mux or of a struct type of this package nested in Mux (mux.ids.seq), in at most three of these steps:
+//   - uint64(...) around it (the identity on uint64, a bijection from int64),
+//   - ONE local variable defined exactly once (`v := E`, `var v [uint64] = E`, or `var v uint64` followed by exactly
+//     one `v = E`) and never assigned, incremented or address-taken otherwise,
+//   - a PARAMETER of declared type uint64 of a function that has exactly one call site (the argument is resolved
+//     in the caller),
+//   - the RESULT of a same-package function or method without arguments whose result type is uint64 and whose
+//     body is a single `return E`;
 //   - the declared type of f, and every other mention of x.f in the package.
 //
 // Anything else about a counter-related V — a conversion to another type, %, &, >>, arithmetic, a plain read of the
@@ -35,7 +41,7 @@ import (
 
 type fact struct {
 	FieldType  string // declared type of the counter field, package names resolved to import paths ("?" if no counter was identified)
-	Shape      string // AddUint64 | MethodAdd | other | none
+	Shape      string // AddUint64 | AddInt64 | MethodAdd | other | none
 	Delta      string
 	Base       string
 	Renderings int // counter-related renderings reachable from ServeHTTP
@@ -54,7 +60,7 @@ func (f fact) coq() string {
 func (f fact) comment() string {
 	via := ""
 	if f.ViaLocal {
-		via = " (through one local variable)"
+		via = " (indirectly)"
 	}
 	return fmt.Sprintf("(* counter field Mux.%s %s; rendered%s: %s; mentions of the field in package httpd: %d; functions reachable from ServeHTTP: %s *)",
 		f.Field, f.FieldType, via, strings.Join(f.Rendered, " ; "), f.Uses, strings.Join(f.Reachable, ","))
@@ -100,11 +106,109 @@ type fn struct {
 	file *ast.File
 }
 
+type site struct {
+	caller fn
+	call   *ast.CallExpr
+}
+
 type analysis struct {
 	fset   *token.FileSet
 	files  []*ast.File
-	fields map[string]string // Mux field -> qualified type
+	fields map[string]string // field of Mux or of a nested struct of this package -> qualified type
 	funcs  map[string][]fn   // name -> declarations (functions and methods of any receiver)
+	sites  map[string][]site // name of a same-package function or method -> its call sites
+}
+
+// callee: the name of the same-package function or method a call goes to ("" if none; matched by name)
+func (a *analysis) callee(file *ast.File, c *ast.CallExpr) string {
+	name := ""
+	switch f := c.Fun.(type) {
+	case *ast.Ident:
+		name = f.Name
+	case *ast.SelectorExpr:
+		if id, isID := f.X.(*ast.Ident); !isID || pkgPath(file, id.Name) == "" {
+			name = f.Sel.Name
+		}
+	}
+	if a.funcs[name] == nil {
+		return ""
+	}
+	return name
+}
+
+// param: is name a parameter of d declared uint64?  its position among the parameters
+func param(d *ast.FuncDecl, name string) (pos int, isUint64 bool, found bool) {
+	i := 0
+	for _, fl := range d.Type.Params.List {
+		for _, nm := range fl.Names {
+			if nm.Name == name {
+				id, ok := fl.Type.(*ast.Ident)
+				return i, ok && id.Name == "uint64", true
+			}
+			i++
+		}
+		if len(fl.Names) == 0 {
+			i++
+		}
+	}
+	return 0, false, false
+}
+
+type resolved struct {
+	field, shape, delta string
+	via                 []string
+}
+
+// resolve: follow V back to the increment it is the value of (see the header), at most `budget` steps
+func (a *analysis) resolve(d fn, e ast.Expr, budget int) (resolved, bool) {
+	e = unwrapUint64(e)
+	if field, shape, delta, ok := a.increment(d.file, e); ok {
+		return resolved{field: field, shape: shape, delta: delta}, true
+	}
+	if budget == 0 {
+		return resolved{}, false
+	}
+	switch x := e.(type) {
+	case *ast.Ident:
+		if lc := locals(d.decl)[x.Name]; lc != nil {
+			if rhs, ok := lc.single(); ok {
+				r, ok := a.resolve(d, rhs, budget-1)
+				r.via = append(r.via, "local "+x.Name)
+				return r, ok
+			}
+			return resolved{}, false
+		}
+		if pos, isU64, found := param(d.decl, x.Name); found && isU64 {
+			ss := a.sites[d.decl.Name.Name]
+			if len(ss) != 1 || len(a.funcs[d.decl.Name.Name]) != 1 || pos >= len(ss[0].call.Args) || ss[0].call.Ellipsis.IsValid() {
+				return resolved{}, false
+			}
+			r, ok := a.resolve(ss[0].caller, ss[0].call.Args[pos], budget-1)
+			r.via = append(r.via, "parameter "+x.Name+" of "+d.decl.Name.Name)
+			return r, ok
+		}
+	case *ast.CallExpr:
+		name := a.callee(d.file, x)
+		if name == "" || len(x.Args) != 0 || len(a.funcs[name]) != 1 {
+			return resolved{}, false
+		}
+		g := a.funcs[name][0]
+		res := g.decl.Type.Results
+		if res == nil || len(res.List) != 1 || len(res.List[0].Names) > 1 || len(g.decl.Body.List) != 1 {
+			return resolved{}, false
+		}
+		if id, ok := res.List[0].Type.(*ast.Ident); !ok || id.Name != "uint64" {
+			return resolved{}, false
+		}
+		ret, ok := g.decl.Body.List[0].(*ast.ReturnStmt)
+		if !ok || len(ret.Results) != 1 {
+			return resolved{}, false
+		}
+		r, ok := a.resolve(g, ret.Results[0], budget-1)
+		r.via = append(r.via, "result of "+name)
+		return r, ok
+	}
+	return resolved{}, false
 }
 
 // increment: is e  atomic.AddUint64(&x.f, d)  or  x.f.Add(d)  with f a Mux field?
@@ -113,11 +217,11 @@ func (a *analysis) increment(file *ast.File, e ast.Expr) (field, shape, delta st
 	if !isCall {
 		return
 	}
-	if qualified(a.fset, file, call.Fun) == "sync/atomic.AddUint64" && len(call.Args) == 2 {
+	if q := qualified(a.fset, file, call.Fun); (q == "sync/atomic.AddUint64" || q == "sync/atomic.AddInt64") && len(call.Args) == 2 {
 		if u, isU := call.Args[0].(*ast.UnaryExpr); isU && u.Op == token.AND {
 			if s, isS := u.X.(*ast.SelectorExpr); isS {
 				if _, isF := a.fields[s.Sel.Name]; isF {
-					return s.Sel.Name, "AddUint64", show(a.fset, call.Args[1]), true
+					return s.Sel.Name, strings.TrimPrefix(q, "sync/atomic."), show(a.fset, call.Args[1]), true
 				}
 			}
 		}
@@ -136,8 +240,22 @@ func (a *analysis) increment(file *ast.File, e ast.Expr) (field, shape, delta st
 // local: the expressions assigned to an identifier of a function, and whether it is "disturbed"
 // (assigned with =, op=, ++/--, address taken, declared with a type other than uint64, range target)
 type local struct {
-	rhs       []ast.Expr
+	rhs       []ast.Expr // every expression it is given (definitions and assignments)
+	defs      int        // `v := E` / `var v = E`
+	sets      int        // plain `v = E`
+	bare      bool       // `var v uint64` without a value
 	disturbed bool
+}
+
+// single: the one expression the local ever holds, if the local is of one of the accepted forms
+func (l *local) single() (ast.Expr, bool) {
+	if l.disturbed || len(l.rhs) != 1 {
+		return nil, false
+	}
+	if (l.defs == 1 && l.sets == 0 && !l.bare) || (l.bare && l.defs == 0 && l.sets == 1) {
+		return l.rhs[0], true
+	}
+	return nil, false
 }
 
 func locals(d *ast.FuncDecl) map[string]*local {
@@ -157,13 +275,15 @@ func locals(d *ast.FuncDecl) map[string]*local {
 					continue
 				}
 				lc := get(id.Name)
-				if x.Tok == token.DEFINE && len(x.Lhs) == len(x.Rhs) {
-					lc.rhs = append(lc.rhs, x.Rhs[i])
-				} else {
+				switch {
+				case len(x.Lhs) != len(x.Rhs):
 					lc.disturbed = true
-					if len(x.Lhs) == len(x.Rhs) {
-						lc.rhs = append(lc.rhs, x.Rhs[i])
-					}
+				case x.Tok == token.DEFINE:
+					lc.rhs, lc.defs = append(lc.rhs, x.Rhs[i]), lc.defs+1
+				case x.Tok == token.ASSIGN:
+					lc.rhs, lc.sets = append(lc.rhs, x.Rhs[i]), lc.sets+1
+				default: // += and friends
+					lc.rhs, lc.disturbed = append(lc.rhs, x.Rhs[i]), true
 				}
 			}
 		case *ast.ValueSpec:
@@ -174,10 +294,13 @@ func locals(d *ast.FuncDecl) map[string]*local {
 						lc.disturbed = true
 					}
 				}
-				if len(x.Values) == len(x.Names) {
-					lc.rhs = append(lc.rhs, x.Values[i])
-				} else {
-					lc.disturbed = true // declared without a value: assigned later
+				switch {
+				case len(x.Values) == len(x.Names):
+					lc.rhs, lc.defs = append(lc.rhs, x.Values[i]), lc.defs+1
+				case len(x.Values) == 0 && x.Type != nil:
+					lc.bare = true // declared without a value: must be assigned exactly once
+				default:
+					lc.disturbed = true
 				}
 			}
 		case *ast.IncDecStmt:
@@ -210,7 +333,8 @@ func numeric(t string) bool {
 }
 
 // related: does e mention an integer / atomic Mux field, a sync/atomic function, or a local assigned from a related expression?
-func (a *analysis) related(file *ast.File, loc map[string]*local, e ast.Expr, depth int) bool {
+func (a *analysis) related(d fn, loc map[string]*local, e ast.Expr, depth int) bool {
+	file := d.file
 	found := false
 	ast.Inspect(e, func(n ast.Node) bool {
 		if found {
@@ -229,8 +353,28 @@ func (a *analysis) related(file *ast.File, loc map[string]*local, e ast.Expr, de
 		case *ast.Ident:
 			if lc := loc[x.Name]; lc != nil && depth < 4 {
 				for _, r := range lc.rhs {
-					if a.related(file, loc, r, depth+1) {
+					if a.related(d, loc, r, depth+1) {
 						found = true
+					}
+				}
+			} else if pos, _, isParam := param(d.decl, x.Name); isParam && depth < 4 {
+				for _, st := range a.sites[d.decl.Name.Name] {
+					if pos < len(st.call.Args) && a.related(st.caller, locals(st.caller.decl), st.call.Args[pos], depth+1) {
+						found = true
+					}
+				}
+			}
+		case *ast.CallExpr:
+			if name := a.callee(file, x); name != "" && depth < 4 {
+				for _, g := range a.funcs[name] {
+					for _, st := range g.decl.Body.List {
+						if ret, ok := st.(*ast.ReturnStmt); ok {
+							for _, r := range ret.Results {
+								if a.related(g, locals(g.decl), r, depth+1) {
+									found = true
+								}
+							}
+						}
 					}
 				}
 			}
@@ -258,18 +402,16 @@ func unwrapUint64(e ast.Expr) ast.Expr {
 
 func analyze(fset *token.FileSet, files []*ast.File) fact {
 	a := &analysis{fset: fset, files: files, fields: map[string]string{}, funcs: map[string][]fn{}}
+	structs := map[string]*ast.StructType{}
+	structFile := map[string]*ast.File{}
 	for _, f := range files {
 		for _, d := range f.Decls {
 			switch x := d.(type) {
 			case *ast.GenDecl:
 				for _, sp := range x.Specs {
-					if ts, ok := sp.(*ast.TypeSpec); ok && ts.Name.Name == "Mux" {
+					if ts, ok := sp.(*ast.TypeSpec); ok {
 						if st, ok := ts.Type.(*ast.StructType); ok {
-							for _, fl := range st.Fields.List {
-								for _, nm := range fl.Names {
-									a.fields[nm.Name] = qualified(fset, f, fl.Type)
-								}
-							}
+							structs[ts.Name.Name], structFile[ts.Name.Name] = st, f
 						}
 					}
 				}
@@ -278,6 +420,43 @@ func analyze(fset *token.FileSet, files []*ast.File) fact {
 					a.funcs[x.Name.Name] = append(a.funcs[x.Name.Name], fn{x, f})
 				}
 			}
+		}
+	}
+	// the fields of Mux and of the struct types of this package nested in it (by value or pointer)
+	todo, done := []string{"Mux"}, map[string]bool{}
+	for len(todo) > 0 {
+		name := todo[0]
+		todo = todo[1:]
+		st := structs[name]
+		if st == nil || done[name] {
+			continue
+		}
+		done[name] = true
+		for _, fl := range st.Fields.List {
+			for _, nm := range fl.Names {
+				a.fields[nm.Name] = qualified(fset, structFile[name], fl.Type)
+			}
+			t := fl.Type
+			if star, ok := t.(*ast.StarExpr); ok {
+				t = star.X
+			}
+			if id, ok := t.(*ast.Ident); ok && structs[id.Name] != nil && id.Name != "Store" && id.Name != "RouteInfo" {
+				todo = append(todo, id.Name)
+			}
+		}
+	}
+	a.sites = map[string][]site{}
+	for _, ds := range a.funcs {
+		for _, d := range ds {
+			d := d
+			ast.Inspect(d.decl.Body, func(n ast.Node) bool {
+				if c, ok := n.(*ast.CallExpr); ok {
+					if name := a.callee(d.file, c); name != "" {
+						a.sites[name] = append(a.sites[name], site{d, c})
+					}
+				}
+				return true
+			})
 		}
 	}
 	res := fact{FieldType: "?", Shape: "none", Delta: "?", Base: "?"}
@@ -296,16 +475,8 @@ func analyze(fset *token.FileSet, files []*ast.File) fact {
 		for _, d := range a.funcs[name] {
 			ast.Inspect(d.decl.Body, func(n ast.Node) bool {
 				if c, ok := n.(*ast.CallExpr); ok {
-					callee := ""
-					switch f := c.Fun.(type) {
-					case *ast.Ident:
-						callee = f.Name
-					case *ast.SelectorExpr:
-						if id, isID := f.X.(*ast.Ident); !isID || pkgPath(d.file, id.Name) == "" {
-							callee = f.Sel.Name
-						}
-					}
-					if callee != "" && a.funcs[callee] != nil && !seen[callee] {
+					callee := a.callee(d.file, c)
+					if callee != "" && !seen[callee] {
 						seen[callee] = true
 						queue = append(queue, callee)
 					}
@@ -336,25 +507,19 @@ func analyze(fset *token.FileSet, files []*ast.File) fact {
 				default:
 					return true
 				}
-				if !a.related(d.file, loc, v, 0) {
+				if !a.related(d, loc, v, 0) {
 					return true // a number that has nothing to do with the Mux (a status code, a length ...)
 				}
 				res.Renderings++
 				res.Rendered = append(res.Rendered, show(fset, v))
 				res.Base = show(fset, base)
 				res.Shape = "other"
-				inner := unwrapUint64(v)
-				if id, isID := inner.(*ast.Ident); isID {
-					lc := loc[id.Name]
-					if lc == nil || lc.disturbed || len(lc.rhs) != 1 {
-						return true
+				if r, ok := a.resolve(d, v, 3); ok {
+					res.Field, res.Shape, res.Delta, res.FieldType = r.field, r.shape, r.delta, a.fields[r.field]
+					if len(r.via) > 0 {
+						res.ViaLocal = true
+						res.Rendered[len(res.Rendered)-1] += " <- " + strings.Join(r.via, " <- ")
 					}
-					inner = unwrapUint64(lc.rhs[0])
-					res.ViaLocal = true
-					res.Rendered[len(res.Rendered)-1] += " where " + id.Name + " := " + show(fset, lc.rhs[0])
-				}
-				if field, shape, delta, isInc := a.increment(d.file, inner); isInc {
-					res.Field, res.Shape, res.Delta, res.FieldType = field, shape, delta, a.fields[field]
 				}
 				return true
 			})
